@@ -356,6 +356,13 @@ impl TranslateHandle<2> {
         let pos_model = self.initial_mat.transform_point(&pos);
         self.initial_center - (pos_model - self.start)
     }
+
+    /// Re-anchors the handle to a view that has changed since the drag began
+    /// (e.g. by zooming), keeping the grabbed model-space point
+    fn rebase(&mut self, view: &View2) {
+        self.initial_mat = view.world_to_model();
+        self.initial_center = view.center;
+    }
 }
 
 impl TranslateHandle<3> {
@@ -363,6 +370,13 @@ impl TranslateHandle<3> {
     fn center(&self, pos: Point3<f32>) -> Vector3<f32> {
         let pos_model = self.initial_mat.transform_point(&pos);
         self.initial_center - (pos_model - self.start)
+    }
+
+    /// Re-anchors the handle to a view that has changed since the drag began
+    /// (e.g. by zooming), keeping the grabbed model-space point
+    fn rebase(&mut self, view: &View3) {
+        self.initial_mat = view.world_to_model();
+        self.initial_center = view.center;
     }
 }
 
@@ -514,7 +528,12 @@ impl Canvas2 {
         pos_screen: Option<Point2<i32>>,
     ) -> bool {
         let pos_world = pos_screen.map(|p| self.image_size.transform_point(p));
-        self.view.zoom((amount / 100.0).exp2(), pos_world)
+        let changed = self.view.zoom((amount / 100.0).exp2(), pos_world);
+        // An in-progress pan must keep tracking the point that was grabbed
+        if let Some(h) = &mut self.drag_start {
+            h.rebase(&self.view);
+        }
+        changed
     }
 }
 
@@ -646,6 +665,11 @@ impl Canvas3 {
         pos_screen: Option<Point2<i32>>,
     ) -> bool {
         let pos_world = pos_screen.map(|p| self.screen_to_world(p));
-        self.view.zoom((amount / 100.0).exp2(), pos_world)
+        let changed = self.view.zoom((amount / 100.0).exp2(), pos_world);
+        // An in-progress pan must keep tracking the point that was grabbed
+        if let Some(Drag3::Pan(h)) = &mut self.drag_start {
+            h.rebase(&self.view);
+        }
+        changed
     }
 }
